@@ -285,7 +285,7 @@ func commaOKFindings(c *Ctx, p *packages.Package, fd *ast.FuncDecl) []commaOKFin
 			switch x := s.(type) {
 			case *ast.AssignStmt:
 				for _, rh := range x.Rhs {
-					checkUses(e, rh)
+					condUses(e, rh)
 				}
 				for _, l := range x.Lhs {
 					if _, isId := unparen(l).(*ast.Ident); !isId {
@@ -399,7 +399,9 @@ func commaOKFindings(c *Ctx, p *packages.Package, fd *ast.FuncDecl) []commaOKFin
 			case *ast.LabeledStmt:
 				e, _ = walk([]ast.Stmt{x.Stmt}, e)
 			case *ast.ReturnStmt:
-				checkUses(e, x)
+				for _, res := range x.Results {
+					condUses(e, res) // `return ok && v.f == …` is guarded by its own left operand
+				}
 				return e, false
 			default:
 				checkUses(e, s)
